@@ -6,5 +6,4 @@ export GOFLAGS=-mod=mod GOPROXY=off GOSUMDB=off GOTOOLCHAIN=local CGO_ENABLED=1
 mkdir -p harness/bin evidence
 (cd harness && go build -tags verif ./... ) || echo "warning: pre-warm build failed (checks rebuild on demand)"
 (cd harness && go build -race -tags verif ./core/ ./corpus/ ) || echo "warning: race pre-warm failed"
-(cd /repo && go build -tags verif -o /dev/null ./cmd/templ ) || echo "warning: templ pre-warm failed"
 exit 0
